@@ -25,7 +25,7 @@ ASSUMPTIONS = [
 
 APIS = ("function", "method", "method_on_region_with_start", "function_on_region_with_start", "raw_file", "raw_file_lazy",
         "wav_file", "wav_file_lazy", "used_buffer_source", "used_reader", "stdin_pipe", "recorder_second_pass",
-        "region_with_conflicting_audio_kwargs", "split_and_plot", "own_validator_object", "source_that_fails_once")
+        "region_with_conflicting_audio_kwargs", "split_and_plot", "own_validator_object", "source_that_fails_once", "recycled_buffer")
 
 
 def run_case(ctx, case, api=None):
@@ -145,6 +145,31 @@ def run_case(ctx, case, api=None):
             ctx.count("source_faults_that_reached_the_caller" if propagated else "source_faults_absorbed_by_split")
             if propagated:
                 expected = expected[: len(regions)]
+        elif api == "recycled_buffer":
+            # the application's capture buffer (a bytearray, or a memoryview of it) serves as the source and is recycled once the
+            # regions have been handed out: a region carries the input BYTES of its sample range, not a window into that buffer
+            from auditok.io import BufferAudioSource
+
+            buf = bytearray(src_data)
+            how_ = (case["pcm_seed"] >> 21) % 3
+            try:
+                src = BufferAudioSource(memoryview(buf) if how_ == 0 else (buf if how_ == 1 else memoryview(buf).toreadonly()), case["rate"], case["width"], case["channels"])
+            except Exception:
+                src = None  # a source class may refuse such a buffer: nothing to judge then
+            if src is None:
+                api = "function"
+                regions = list(auditok.split(src_data, **kw, **AC.audio_kwargs(case)))
+            else:
+                regions = []
+                for r in auditok.split(src, **kw):
+                    regions.append(r)
+                try:
+                    if how_ == 2:
+                        memoryview(buf)[:] = bytes(len(buf))
+                    else:
+                        buf[:] = bytes(len(buf))
+                except BufferError:
+                    pass  # still exported somewhere: cannot be recycled yet
         elif api == "own_validator_object":
             # the caller's own validator: an object that happens to be falsy (it keeps a history of its decisions, empty at the
             # start), a plain function, or a DataValidator subclass - it, not the default energy validator, decides every window
@@ -348,6 +373,6 @@ def replay(ctx, case):
 def inconclusive(merged, tier):
     c = merged["counters"]
     return [f"monitor never observed {k}" for k in
-            ("regions_observed", "regions_expected", "api_function", "api_method", "api_method_on_region_with_start", "api_function_on_region_with_start", "huge_window_cases", "cases_with_max_read_inside_a_window", "api_raw_file_lazy", "api_wav_file_lazy", "api_used_buffer_source", "api_used_reader", "api_stdin_pipe", "api_recorder_second_pass", "api_region_with_conflicting_audio_kwargs", "api_split_and_plot", "api_own_validator_object", "api_source_that_fails_once", "cases_threshold_zero", "nested_splits", "width_1", "width_2", "width_4",
+            ("regions_observed", "regions_expected", "api_function", "api_method", "api_method_on_region_with_start", "api_function_on_region_with_start", "huge_window_cases", "cases_with_max_read_inside_a_window", "api_raw_file_lazy", "api_wav_file_lazy", "api_used_buffer_source", "api_used_reader", "api_stdin_pipe", "api_recorder_second_pass", "api_region_with_conflicting_audio_kwargs", "api_split_and_plot", "api_own_validator_object", "api_source_that_fails_once", "api_recycled_buffer", "cases_threshold_zero", "nested_splits", "width_1", "width_2", "width_4",
              "channels_1", "channels_2", "channels_3", "cases_with_partial_last_window", "regions_ending_in_partial_window",
              "cases_nonintegral_window", "repo_tests_split_regions_checked") if c.get(k, 0) == 0]
